@@ -11,3 +11,29 @@ Definition control_state_names : list (list N) :=
 Definition control_state_string (v : Z) : outcome (list N) :=
   if (v <? 0) || (Z.of_nat (length control_state_names) <=? v) then Ok []
   else match nth_error control_state_names (Z.to_nat v) with Some s => Ok s | None => Panic end.
+
+(* ---------- codec.Dump: the hex dump the driver formats for every request and every received datagram ---------- *)
+(* for ix := 0; ix < len(m); ix += 16 { chunk := m[ix:]; for i := 0; i < 8 && i < len(chunk); i++ { chunk[i] } ...
+   for i := 8; i < 16 && i < len(chunk); i++ { chunk[i] } }.  The model returns the byte values printed per row (the
+   "%02x" formatting itself cannot fail); fuel exhaustion is Err and is excluded by the theorem. *)
+Open Scope nat_scope.
+Fixpoint dump_cols (chunk : list N) (i n : nat) : outcome (list N) :=      (* columns i .. i+n-1 while i < len(chunk) *)
+  match n with
+  | O => Ok []
+  | S n' => if Nat.ltb i (length chunk)
+            then (b <- index chunk i ;; r <- dump_cols chunk (S i) n' ;; Ok (b :: r))
+            else Ok []
+  end.
+
+Fixpoint dump_rows (m : list N) (ix fuel : nat) : outcome (list (list N)) :=
+  match fuel with
+  | O => Err
+  | S f => if Nat.ltb ix (length m)
+           then (chunk <- slice m ix (length m) ;;
+                 lo <- dump_cols chunk 0 8 ;; hi <- dump_cols chunk 8 8 ;;
+                 rest <- dump_rows m (ix + 16) f ;; Ok ((lo ++ hi) :: rest))
+           else Ok []
+  end.
+
+Definition dump (m : list N) : outcome (list (list N)) := dump_rows m 0 (S (length m)).
+Close Scope nat_scope.
